@@ -77,12 +77,12 @@ func renderBoth(e *expr.Expression) (o renderOut, panicked any) {
 	s, err := d.Render(e)
 	o.SQL = s
 	if err != nil {
-		o.Err = err.Error()
+		o.Err = "error" // presence only: the property does not prescribe error texts
 	}
 	ps, pp, perr := d.RenderParam(e)
 	o.PSQL = ps
 	if perr != nil {
-		o.PErr = perr.Error()
+		o.PErr = "error"
 	}
 	o.Params = fmt.Sprintf("%v", pp)
 	return
